@@ -6,7 +6,7 @@
    comma-joined join values are k, in left-file order; right_out o L r = what the nested-loop reading of the property
    statement prescribes for right record r: its pairs (compose l r, left-file order), or nothing under --np, or, when
    it matches nothing / has no key, its unpaired form under --ur. *)
-From Miller Require Import Base.Bytes Base.Record C13.Model C13.Proofs C13.ProofsSorted C13.Order C13.ProofsMerge C13.ProofsKeyless C13.ProofsCompose C13.ProofsOnce.
+From Miller Require Import Base.Bytes Base.Record C13.Model C13.Proofs C13.ProofsSorted C13.Order C13.ProofsMerge C13.ProofsKeyless C13.ProofsCompose C13.ProofsOnce C13.ProofsGenuine.
 From Coq Require Import Sorted.
 From Coq Require Import Permutation.
 
@@ -108,16 +108,18 @@ Print Assumptions C13_sorted_mode_accounts_for_left_records_partial.
    bucket a right record was paired with is in Bs.  Hence no left record is lost, none is flushed twice, none is both
    paired and flushed; a right record is never both unpaired and paired.  On unsorted input -s pairs fewer records than
    the default mode ("else not all records will be paired", mlr join --help) -- but this accounting still holds.
+   genuine: the pairs are real matches -- every left record of the bucket a right record is paired with has exactly
+   that right record's join values, field by field (one step per right record: Forall2).
    (Buckets are compared as lists of records: two buckets with identical contents are not told apart.) *)
 Theorem C13_sorted_mode_exactly_once_on_all_inputs :
-  forall o left right, ul o = true ->
+  forall o left right, ul o = true -> List.length (lj o) = List.length (rj o) ->
   exists (steps : list (list record * list record)) (final : list record) (Bs : list (list record)),
     join_sorted o left right = emit_all o steps right ++ map (unpaired_left o) final
-    /\ List.length steps = List.length right
+    /\ Forall2 (genuine o) steps right
     /\ Permutation (lefts o left) (List.concat (map fst steps) ++ final ++ List.concat Bs)
     /\ (forall B, In B Bs -> B <> [] /\ In B (map snd steps))
     /\ (forall s, In s steps -> snd s <> [] -> In (snd s) Bs).
-Proof. exact join_sorted_exactly_once. Qed.
+Proof. exact join_sorted_exactly_once_genuine. Qed.
 Print Assumptions C13_sorted_mode_exactly_once_on_all_inputs.
 
 (* non-vacuity on an UNSORTED input: the left key 1 comes back after key 2; the second run of key 1 is never paired, the
